@@ -16,6 +16,8 @@ TASKS_PER_CHILD = 6
 
 NT = TStruct("nt_t", (TField("x", INTS["uint8"]), TField("y", INTS["uint16"])))
 EN = TEnum("En", INTS["uint8"], (("A", 1), ("B", 2)))
+NS17 = TStruct("ns17_t", (TField("lo", INTS["uint8"]), TField("hi", INTS["uint8"])))
+UNS17 = TStruct("uns17_t", (TField("w", INTS["uint16"]), TField("s", NS17)), union=True)  # a union holding a nested structure (no list member: hashable)
 UN17 = TStruct("un17_t", (TField("w", INTS["uint16"]), TField("b", TArr(INTS["uint8"], 2))), union=True)
 
 # kind -> (list of TField templates (name suffix, type, bits), values per sub-field [zero, nz1, nz2], always-truthy?)
@@ -32,6 +34,7 @@ KINDS = {
     "ptr": ([("", TPtr(INTS["uint8"]), None)], [[0, 8, 1]]),
     "arrs": ([("", TArr(NT, 2), None)], [[[{"x": 0, "y": 0}, {"x": 0, "y": 0}], [{"x": 1, "y": 2}, {"x": 3, "y": 4}], [{"x": 0, "y": 0}, {"x": 0, "y": 9}]]]),
     "a2d": ([("", TArr(TArr(INTS["uint8"], 2), 2), None)], [[[[0, 0], [0, 0]], [[1, 2], [3, 4]], [[0, 0], [0, 7]]]]),
+    "uns": ([("", UNS17, None)], [[0, 0x0102, 0xFF00]]),
     "un": ([("", UN17, None)], [[0, 0x0102, 0xFF00]]),  # value = the union's member w (little-endian bytes are derived)
 }
 KIND_LIST = list(KINDS)
@@ -63,6 +66,8 @@ def mk_impl_value(cs, kind, v):
         return cs.En(v)
     if kind == "un":
         return cs.un17_t(w=v)
+    if kind == "uns":
+        return cs.uns17_t(w=v)
     if kind == "arrs":
         return [cs.nt_t(x=e["x"], y=e["y"]) for e in v]
     if kind == "a2d":
@@ -228,6 +233,10 @@ def check_struct(kinds, res: JobResult, tier, align=False, compiled=False, endia
     z = T()
     zn = impl.norm(z)
     for s in slots:
+        if s[2] == "uns":
+            if zn.get(s[0]) != {"w": 0, "s": {"lo": 0, "hi": 0}}:
+                issue("default:not-zero", f"default instance has {s[0]} = {zn.get(s[0])!r}")
+            continue
         if s[2] == "un":
             if zn.get(s[0]) != {"w": 0, "b": [0, 0]}:
                 issue("default:not-zero", f"default instance has {s[0]} = {zn.get(s[0])!r}")
@@ -344,7 +353,7 @@ def _enc_vals(st, mv, bo="little"):
         if f.name is None:
             for g in f.type.fields:
                 out[g.name] = mv[g.name]
-        elif f.type is UN17:
+        elif f.type is UN17 or f.type is UNS17:
             out[f.name] = codec.RawUnion(int(mv[f.name]).to_bytes(2, bo))
         else:
             out[f.name] = mv[f.name]
@@ -420,7 +429,11 @@ def jobs(tier):
     kmax = 4
     seqs = []
     for k in range(0, kmax + 1):
-        pool = KIND_LIST if (k <= 3 or tier == "thorough") else ["u8", "c2", "nest", "enum", "bits", "anon", "un", "arrs"]
+        mid = ["u8", "c2", "nest", "enum", "bits", "anon", "un", "arrs", "uns"]
+        if tier == "thorough":
+            pool = KIND_LIST if k <= 3 else mid
+        else:
+            pool = KIND_LIST if k <= 2 else mid if k == 3 else ["u8", "nest", "bits", "anon", "uns"]
         for ks in itertools.product(pool, repeat=k):
             if sum(1 for x in ks if x == "anon") > 1:
                 continue
@@ -463,6 +476,6 @@ def meta(tier):
         "assignment on a default; defaults are zero values; dumps of every instance = model encoding (assignment is local); all histories of <=3 "
         "operations {hash, assign, assign nested} equal a fresh equal instance; 24 class-creation orders; field-count sweep n=0..20; non-trivial = "
         "equal pairs and histories",
-        "bounds": {"fields": "3 over 10 kinds + 4 over 6 kinds" if tier == "quick" else "4 over 10 kinds + 5 over 6 kinds", "values_per_field": 3, "history_depth": 3 if tier == "quick" else 4, "sweep": 20 if tier == "quick" else 32},
+        "bounds": {"fields": f"<=2 over {len(KIND_LIST)} kinds + 3 over 9 + 4 over 5" if tier == "quick" else f"<=3 over {len(KIND_LIST)} kinds + 4 over 9 + 5 over 6", "values_per_field": 3, "history_depth": 3 if tier == "quick" else 4, "sweep": 20 if tier == "quick" else 32},
         "assumptions": ["bool follows Python truthiness of field values (non-empty bytes/list fields are truthy)", "instances with list fields are unhashable"],
     }
